@@ -44,13 +44,17 @@ def _tx_dict(case):
     return txd
 
 
-def _pycoin_tx(T, txd, amounts):
+def _pycoin_tx(T, txd, amounts, only=None):
     ins = [T.TxIn(i["prev_hash"], i["prev_index"], i["script"], i["sequence"]) for i in txd["ins"]]
     # equal outputs / inputs are the SAME object in the lists (txs_out = [out] * n, one `out` variable appended twice): what is
     # hashed depends on positions and values, never on object identity
     shared = {}
     outs = [shared.setdefault((o["value"], o["script"]), T.TxOut(o["value"], o["script"])) for o in txd["outs"]]
     unspents = [T.TxOut(a, b"\x51") for a in amounts]
+    if only is not None:
+        # only the spent output of the input being hashed is known (a co-signer who knows its own coin, a database with
+        # gaps): its digest needs no other amount
+        unspents = [u if k == only else None for k, u in enumerate(unspents)]
     return T(txd["version"], ins, outs, txd["locktime"], unspents=unspents)
 
 
@@ -58,7 +62,8 @@ def _snapshot(tx):
     return (tx.version, tx.lock_time, id(tx.txs_in), id(tx.txs_out), len(tx.txs_in), len(tx.txs_out),
             tuple((id(i), i.previous_hash, i.previous_index, i.script, i.sequence, tuple(i.witness)) for i in tx.txs_in),
             tuple((id(o), o.coin_value, o.script) for o in tx.txs_out),
-            tuple((o.coin_value, o.script) for o in tx.unspents), tx.as_bin(include_unspents=True))
+            tuple(None if o is None else (o.coin_value, o.script) for o in tx.unspents),
+            tx.as_bin(include_unspents=True) if all(o is not None for o in tx.unspents) else tx.as_bin())
 
 
 class _VMStub:
@@ -74,7 +79,7 @@ def o_sighash(case):
     amount = case["amount"]
     code = A.render(case["code"])
     amounts = [(amount if k == n_in else 7 + k) for k in range(len(txd["ins"]))]
-    tx = _pycoin_tx(T, txd, amounts)
+    tx = _pycoin_tx(T, txd, amounts, only=n_in if case.get("partial") else None)
     snap = _snapshot(tx)
     sc = T.SolutionChecker(tx)
     labels = ["coin=" + coin, "ins=%d" % min(len(txd["ins"]), 3), "outs=%d" % min(len(txd["outs"]), 3)]
@@ -468,8 +473,8 @@ def _txs():
 
 
 def s_sighash():
-    return st.builds(lambda tx, code, coin: dict(tx, code=code, coin=coin), _txs(), _wellformed_codes(),
-                     st.sampled_from(["btc", "btc", "ltc", "bch", "btg", "grs"]))
+    return st.builds(lambda tx, code, coin, partial: dict(tx, code=code, coin=coin, partial=partial), _txs(), _wellformed_codes(),
+                     st.sampled_from(["btc", "btc", "ltc", "bch", "btg", "grs"]), st.sampled_from([0, 0, 1]))
 
 
 def s_closure():
